@@ -211,7 +211,8 @@ def iterate (md : Module) (starts : List Nat) : Nat → HMap → List Nat → Ex
         | .ok (hm', work') => iterate md starts fuel hm' work'
     | _, _ => iterate md starts fuel hm work
 
-def verify (md : Module) : Except String Summary := do
+/-- the verifier proper: summary and the height map (one abstract state per reached address) -/
+def verifyH (md : Module) : Except String (Summary × HMap) := do
   let n := md.code.size
   if n == 0 then throw "empty module" else
   if !ExcWF md.exctab md.excCount then throw "exception table is not well-formed (first block 0, strictly increasing, sentinel)" else
@@ -242,9 +243,21 @@ def verify (md : Module) : Except String Summary := do
   let cnt (p : Instr → Bool) : Nat := (md.code.toList.filter p).length
   let marks := md.code.toList.filter (·.op == .MARK)
   let calls := cnt (·.op == .CALL)
-  pure { instrs := n, functions := starts.length, calls := calls, tailCalls := calls - marks.length,
-         jumps := cnt (fun i => i.op == .JUMP || i.op == .JUMPZ), handlers := handlers.length,
-         maxHeight := reached.foldl (fun m s => max m (s.map (·.h) |>.getD 0)) 0,
-         unreached := n - reached.length }
+  let sm : Summary := { instrs := n, functions := starts.length, calls := calls, tailCalls := calls - marks.length, jumps := cnt (fun i => i.op == .JUMP || i.op == .JUMPZ), handlers := handlers.length, maxHeight := reached.foldl (fun m s => max m (s.map (·.h) |>.getD 0)) 0, unreached := n - reached.length }
+  pure (sm, hm)
+
+def verify (md : Module) : Except String Summary := (verifyH md).map (·.1)
+
+/-- the heights the verifier assigned inside function bodies, for the run-time cross-check of its table
+(`sp = fp + nparams + h(ip)` before every executed instruction): `(address, height, nparams)`; handler entries
+(entered with whatever the faulting instruction left) are omitted -/
+def heightsOf (md : Module) (hm : HMap) : List (Nat × Nat × Nat) :=
+  let starts := funcStarts md
+  let handlers := (md.exctab.toList.take md.excCount).map (·.handler)
+  (List.range md.code.size).filterMap fun a =>
+    match hm[a]?, regionStart starts a, paramsAt md starts a with
+    | some (some st), some _, some np =>
+      if handlers.contains a ∨ (a > 0 ∧ handlers.contains (a - 1) ∧ (md.code[a - 1]?.map (·.op)) == some .LABEL) then none else some (a, st.h, np)
+    | _, _, _ => none
 
 end Never.Ver
